@@ -1,6 +1,6 @@
 PROPERTY = "C18"
 LEVEL = "proof"
-FUNCTIONS = ["canonicalize_name", "normalize_slashes", "is_filename_sane", "mknode (call site: hard-link target)", "it_next (call site: tar member name)", "get_path of rdsquashfs (call site: command line paths)"]
+FUNCTIONS = ["canonicalize_name", "normalize_slashes", "is_filename_sane", "mknode (call site: hard-link target)", "it_next (call site: tar member name)", "get_path of rdsquashfs (call site: command line paths)", "handle_line of gensquashfs (call site: pack file paths)"]
 TRUSTED = ["CBMC library model of strcmp (used by is_filename_sane)",
            "malloc never returns overlapping objects (CBMC memory model)"]
 ASSUMPTIONS = [
@@ -41,6 +41,13 @@ HARNESSES = [
          cases=[dict(id="hdr3", defines={"MAX_HDR": 3}, tier="quick")]),
     dict(name="funnel_rd_getpath", file="funnel_rd_getpath.c", label="proved",
          timeout=300, native=False, include_dirs=["bin/rdsquashfs/src"]),
+    dict(name="funnel_packfile", file="funnel_packfile.c",
+         label="bounded(path length 3)", unwind=12, timeout=300,
+         include_dirs=["bin/gensquashfs/src"], nochecks=["--conversion-check"],
+         fp={"callback": ["add_generic", "add_device", "add_file"],
+             "get_filename": None},   # in fstree_from_file_stream, not reachable from the harness
+         cases=[dict(id=k, defines={"KEYWORD": '"%s"' % k, "PATH_LEN": 3}, tier="quick")
+                for k in ("dir", "slink", "link", "nod", "pipe", "sock", "file", "glob")]),
     dict(name="sane_iff", file="sane_iff.c", label="bounded(len<=12)",
          timeout=900,
          cases=[dict(id="len%d" % n, defines={"LEN": n}, tier="quick", unwind=n + 3)
